@@ -48,18 +48,18 @@ PROPS = {
         "label": "full for the receiver's commit protocol; scheduling / asynchronous clean-up by end-to-end oracle",
     },
     "C05": {
-        "components": ["confine"],
+        "components": ["confine", "osroot"],
         "trusted_base": [KERNEL, GEN, HARNESSTB, FSNOTE,
-                         "ASSUMED (Section hypothesis root_confines in Proofs/ConfineProofs.v): Go's os.Root never resolves a name to an object outside the root; exercised, not proved, by the hostile-list matrix on this kernel and Go version",
+                         "os.Root (Go standard library) is modelled, not verified: Model/Root.v mirrors its resolution (doInRoot: component walk, '..' by restart, relative links spliced, absolute links and '..' at the root refused, final link followed or not per operation); theorem root_resolution_stays_inside is about that model; component osroot compares the model with the real os.Root on random trees and flags any resolution that ends outside the root. session_confined_given_root keeps the confinement of the real os.Root as an explicit hypothesis",
                          "translator tools/gen/fssites.go decides which calls count as file-system call sites (packages os, unix, syscall, renameio, ioutil, exec; methods on the root expressions rt.DestRoot, root, subRoot, parentRoot; handles parentDir/in/out/localFile; helpers symlink, newPendingFile, RootChecksum)",
                          "linux build only (generatormknod_darwin.go uses a plain path join and is outside this check)"],
         "assumptions": [
             "the hand-written sender (harness/fakesender.go) speaks protocol 27 to a real library client and to a real writable daemon module over buffered in-memory pipes; a benign control list must be received completely, else the run fails",
             "reads are observed through the block checksums the generator sends back for an escaping name (a non-empty checksum list means outside data was read)",
         ],
-        "rule": "matrix: escape vector {.., absolute name, pre-existing relative symlink, pre-existing absolute symlink, nested .., nested pre-existing symlink, symlink sent earlier in the same list, symlink then directory of the same name in one list, daemon upload subdirectory = symlink / symlink with trailing slash / .. / nested symlink} x outside target {existing file, absent name, existing directory, file in a subdirectory, symlink} x entry {regular with new content (create temp, rename), regular with equal size+mtime (chmod/chown/chtimes only), directory, read-only directory (touch-up), symlink, fifo, socket, character device} x {-rlptgoD, + --delete} x {receiving client, writable daemon module}; --delete walks over destinations holding symlinks to outside directories; random hostile lists built from the components of those names. oracle: content+metadata snapshot (type, content, mode, mtime incl. ns, owner, rdev) of everything around the destination identical before and after, no checksum list for an escaping name. quick tier runs a third of the matrix (rotating with the seed) plus all daemon-subdirectory vectors",
+        "rule": "matrix: escape vector {.., absolute name, pre-existing relative symlink, pre-existing absolute symlink, nested .., nested pre-existing symlink, symlink sent earlier in the same list, symlink then directory of the same name in one list, daemon upload subdirectory = symlink / symlink with trailing slash / .. / nested symlink} x outside target {existing file, absent name, existing directory, file in a subdirectory, symlink} x entry {regular with new content (create temp, rename), regular with equal size+mtime (chmod/chown/chtimes only), directory, read-only directory (touch-up), symlink, fifo, socket, character device} x {-rlptgoD, + --delete} x {receiving client, writable daemon module}; --delete walks over destinations holding symlinks to outside directories; random hostile lists built from the components of those names; symlink chains whose link target ends in a slash (chain -> 'hop/', hop -> '../outside') as pre-existing entries, as entries of the same list and as the daemon subdirectory. osroot: random trees of directories, files and symbolic links (relative, absolute, dangling, cyclic, with '..', with trailing slashes, chained) x cleaned names walking existing entries and random components x {final link followed (Stat), not followed (Lstat)}: the object reached (by inode) vs the model, never outside the root. oracle: content+metadata snapshot (type, content, mode, mtime incl. ns, owner, rdev) of everything around the destination identical before and after, no checksum list for an escaping name. quick tier runs a third of the matrix (rotating with the seed) plus all daemon-subdirectory vectors",
         "exhaustive": False,
-        "label": "partial: relies on os.Root confinement (assumed); the code's obligation (all destination access goes through the root) is a regenerated theorem",
+        "label": "partial: os.Root is modelled and checked against the real one, not verified; the code's obligation (all destination access goes through the root) is a regenerated theorem",
     },
     "C06": {
         "components": ["serve"],
